@@ -141,6 +141,9 @@ def build(cfg, memdir=None):
         n_warm, kw["adapters"] = 0, []
     elif cfg["stages"] == "two":
         n_warm, kw["adapters"] = 2, []
+    elif cfg["stages"] == "two_none":
+        # a warm-up stage without adapters, requested with the documented value None
+        n_warm, kw["adapters"] = 2, None
     elif cfg["stages"] == "adaptive_metric":
         # a cross-chain metric adapter: its finalize pools the states of all chains that ran
         n_warm = 3
@@ -706,6 +709,12 @@ def configs(tier, seed):
                         if n_chain == 2 and storage == "memory" and twu and \
                                 (not quick or stages != "two"):
                             cfgs.append(dict(base, mode="real", n_process=2))
+    for n_chain in (1, 2):
+        base = {"stages": "two_none", "storage": "memory", "n_chain": n_chain, "n_main": 2,
+                "trace_warm_up": True, "sampler": "static", "seed": seed}
+        cfgs.append(dict(base, mode="sequential"))
+        if n_chain == 2:
+            cfgs.append(dict(base, mode="simulated", n_process=2, bound=0, max_leaves=60))
     for n_chain in (2, 3):
         for twu in (True, False):
             base = {"stages": "adaptive_metric", "storage": "memory", "n_chain": n_chain,
